@@ -77,6 +77,34 @@ def run(ctx, build):
                 if nm not in root:
                     root.create_group(nm)
                     init.append((nm, True))
+            # designed histories (independent of the seed): numbers of different widths under one base (unpadded next to padded,
+            # beyond 999), for indexed and for results groups; the first operations are then creations for exactly that base
+            script = []
+            if hi < 6:
+                pre, script = [(['A_7', 'A_010', 'A_011'], [('idx', 'A'), ('idx', 'A')]),
+                               (['Fit_999', 'Fit_1000'], [('idx', 'Fit'), ('idx', 'Fit')]),
+                               (['Raw-Fit_9', 'Raw-Fit_010'], [('res', 'Raw', 'Fit'), ('res', 'Raw', 'Fit')]),
+                               (['Raw-Fit_999', 'Raw-Fit_1000', 'Raw-Fit_2_003'], [('res', 'Raw', 'Fit'), ('res', 'Raw', 'Fit_2')]),
+                               (['X_1_9', 'X_1_10', 'X_5'], [('idx', 'X_1'), ('idx', 'X')]),
+                               (['C_99', 'C_100', 'C_C_100'], [('idx', 'C'), ('idx', 'C_C')])][hi]
+                for nm in pre:
+                    if nm not in root:
+                        root.create_group(nm)
+                        init.append((nm, True))
+                if 'Raw' not in dsets:
+                    dsets.append('Raw')
+                    home.create_dataset('Raw', data=np.arange(3))
+                    if where == 'default':
+                        init.append(('Raw', False))
+            # results created BESIDE the source datasets earlier on must not influence the numbering in another parent
+            if where != 'default':
+                for dn in dsets[:2]:
+                    for _ in range(2):
+                        with common.quiet():
+                            create_results_group(home[dn], 'Fit')
+                hist['results_beside_source_before_explicit_parent'] = hist.get('results_beside_source_before_explicit_parent', 0) + 1
+                if where == 'same_file_root':
+                    init = [(k, isinstance(f[k], h5py.Group)) for k in f.keys()]
             ops, log = [], []
             created = {}          # oracle bookkeeping: name -> ('idx', base) | ('res', dset, tool)
             for nm, is_grp in init:
@@ -92,9 +120,12 @@ def run(ctx, build):
                 hist['prefix_pairs_present'] += 1
             for oi in range(n_ops):
                 r = rng.random()
+                forced_op = script.pop(0) if script else None
+                if forced_op:
+                    r = 0.1 if forced_op[0] == 'idx' else 0.5
                 groups_now = [k for k in root.keys() if isinstance(root[k], h5py.Group)]
                 numbered = [k for k in groups_now if re.fullmatch(r'.*_[0-9]+', k) and k != 'P']
-                if numbered and rng.random() < 0.25:
+                if numbered and rng.random() < 0.25 and not forced_op:
                     # delete a numbered group that is not the last of its base (makes a gap), the next creation follows
                     r = 0.75
                     groups_now_for_delete = numbered
@@ -104,6 +135,8 @@ def run(ctx, build):
                     base = rng.choice(bases)
                     if rng.random() < 0.2:
                         base = base + '_'
+                    if forced_op:
+                        base = forced_op[1]
                     before = set(root.keys())
                     try:
                         with common.quiet():
@@ -129,6 +162,8 @@ def run(ctx, build):
                         created[name] = ('idx', b)
                 elif r < 0.7:
                     dn, tool = rng.choice(dsets), rng.choice(tools)
+                    if forced_op:
+                        dn, tool = forced_op[1], forced_op[2]
                     before = set(root.keys())
                     try:
                         with common.quiet():
